@@ -119,6 +119,10 @@ func NewTable(b *bytes.Buffer) (t Table, err error) {
 }
 
 func NewTableCustom(defs *[]RouteDef) (t Table, err error) {
+	// e.g. the JSON document 'null' from a custom backend
+	if defs == nil {
+		return nil, errors.New("route: no route definitions")
+	}
 
 	t = make(Table)
 	for _, d := range *defs {
